@@ -15,6 +15,14 @@ require (
 	github.com/DistCompiler/pgo/systems/replicatedkv v0.0.0-00010101000000-000000000000
 	github.com/DistCompiler/pgo/systems/shcounter v0.0.0
 	github.com/DistCompiler/pgo/systems/shopcart v0.0.0
+	github.com/DistCompiler/pgo/test/files/general/ExprTests.tla.gotests v0.0.0-00010101000000-000000000000
+	github.com/DistCompiler/pgo/test/files/general/IndexingLocals.tla.gotests v0.0.0-00010101000000-000000000000
+	github.com/DistCompiler/pgo/test/files/general/NonDetExploration.tla.gotests v0.0.0-00010101000000-000000000000
+	github.com/DistCompiler/pgo/test/files/general/PBFail4_bug125.tla.gotests v0.0.0-00010101000000-000000000000
+	github.com/DistCompiler/pgo/test/files/general/ProcedureSpaghetti.tla.gotests v0.0.0-00010101000000-000000000000
+	github.com/DistCompiler/pgo/test/files/general/bug2_124.tla.gotests v0.0.0-00010101000000-000000000000
+	github.com/DistCompiler/pgo/test/files/general/bug_119.tla.gotests v0.0.0-00010101000000-000000000000
+	github.com/DistCompiler/pgo/test/files/general/hello.tla.gotests v0.0.0-00010101000000-000000000000
 	github.com/benbjohnson/immutable v0.4.3
 	github.com/dgraph-io/badger/v3 v3.2103.5
 	go.uber.org/multierr v1.11.0
@@ -77,3 +85,19 @@ replace github.com/DistCompiler/pgo/systems/shopcart => /repo/systems/shopcart
 replace github.com/DistCompiler/pgo/systems/nestedcrdtimpl => /repo/systems/nestedcrdtimpl
 
 replace github.com/DistCompiler/pgo/systems/replicatedkv => /repo/systems/replicatedkv
+
+replace github.com/DistCompiler/pgo/test/files/general/hello.tla.gotests => /repo/pgo/test/files/general/hello.tla.gotests
+
+replace github.com/DistCompiler/pgo/test/files/general/IndexingLocals.tla.gotests => /repo/pgo/test/files/general/IndexingLocals.tla.gotests
+
+replace github.com/DistCompiler/pgo/test/files/general/NonDetExploration.tla.gotests => /repo/pgo/test/files/general/NonDetExploration.tla.gotests
+
+replace github.com/DistCompiler/pgo/test/files/general/bug2_124.tla.gotests => /repo/pgo/test/files/general/bug2_124.tla.gotests
+
+replace github.com/DistCompiler/pgo/test/files/general/PBFail4_bug125.tla.gotests => /repo/pgo/test/files/general/PBFail4_bug125.tla.gotests
+
+replace github.com/DistCompiler/pgo/test/files/general/bug_119.tla.gotests => /repo/pgo/test/files/general/bug_119.tla.gotests
+
+replace github.com/DistCompiler/pgo/test/files/general/ProcedureSpaghetti.tla.gotests => /repo/pgo/test/files/general/ProcedureSpaghetti.tla.gotests
+
+replace github.com/DistCompiler/pgo/test/files/general/ExprTests.tla.gotests => /repo/pgo/test/files/general/ExprTests.tla.gotests
